@@ -75,7 +75,18 @@ NEEDS.update({
  "f17": "input: docker mode, ip file in CRLF two-line form for a running container",
  "f20": "input: nodeSubnets listing one network twice with different host bits",
 })
-OTHER = {'b02': ['C03', 'C05'], 'a04': ['C10'], 'd02': ['C06'], 'd09': ['C05', 'C06'], 'e06': ['C08', 'C05'], 'e01': ['C09', 'C05'], 'e10': ['C04'], 'e04': ['C01'], 'f13': ['C12'], 'f16a': ['C15'], 'f15b': ['C16']}
+
+NEEDS.update({
+ "g02a": "input: statefulset/CRD pod carrying the ip-pool annotation, deleted (event handled) and re-created",
+ "g02b": "multi-step + topology: deployment with >= 2 IPs in reserve lying in different node subnets, then a replacement pod",
+ "g05": "fault: delete of a later entry fails inside a multi-entry ReleaseIPs (memory update postponed and skipped)",
+ "g06": "input: >= 3 requested range lists, the first ones in pools without a common node subnet (reverts fix a2923b4)",
+ "g08": "input + state: a requested range without held IP precedes a range in which the pod already holds an IP",
+ "g10": "fault: UnAssignIP fails once during a resync pass (release/reserve goes on anyway)",
+ "g18": "input: GET /v1/ip with an unknown sort value and >= 2 matching IPs (nil comparator)",
+ "g19": "interleaving: configuration reload with changed content concurrent with a node-subnet cache miss in filter/bind",
+})
+OTHER = {'b02': ['C03', 'C05'], 'a04': ['C10'], 'd02': ['C06'], 'd09': ['C05', 'C06'], 'e06': ['C08', 'C05'], 'e01': ['C09', 'C05'], 'e10': ['C04'], 'e04': ['C01'], 'f13': ['C12'], 'd01': ['C04'], 'g02b': ['C06'], 'g10': ['C04'], 'g19': ['C06'], 'f16a': ['C15'], 'f15b': ['C16']}
 only = sys.argv[1:]
 for sid, (prop, pkg) in SEEDS.items():
     if only and sid not in only: continue
